@@ -49,7 +49,8 @@ def forget_guarded(ctx: Ctx, chk) -> None:
             sends = [x for b in lp.body for x in ast.walk(b) if isinstance(x, ast.Await) and isinstance(x.value, ast.Call) and isinstance(x.value.func, ast.Attribute) and x.value.func.attr == "send"]
             if not sends:
                 continue
-            for b in lp.body:
+            first_send = min(i_ for i_, b_ in enumerate(lp.body) if any(s_ is x_ for x_ in ast.walk(b_) for s_ in sends))
+            for bi, b in enumerate(lp.body):
                 for x in ast.walk(b):
                     cont = None
                     if isinstance(x, ast.Delete):
@@ -58,8 +59,8 @@ def forget_guarded(ctx: Ctx, chk) -> None:
                                 cont = (t.value, x)
                     elif isinstance(x, ast.Call) and isinstance(x.func, ast.Attribute) and x.func.attr in ("pop", "popitem", "clear") and from_buffer(x.func.value):
                         cont = (x.func.value, x)
-                    if cont is None or x.lineno < sends[0].lineno:
-                        continue
+                    if cont is None or bi < first_send:
+                        continue  # (statement order in the loop body: written-out helpers keep the line numbers of their definition)
                     n += 1
                     chk.instance(rule)
                     key = fkey(f, cont[1]) + "::identity-guard"
